@@ -106,14 +106,23 @@ def run_property(pid, tier, seed, only=None, use_cache=True, keep=False, write_e
         # ---- SMT obligations --------------------------------------------------------------
         smt_obs = [o for o in todo if o["engine"] == "smt"]
         if smt_obs:
+            sys.path.insert(0, os.path.join(VERIF, "smt"))
             import smt_common
             for o in smt_obs:
                 try:
                     mod = importlib.import_module(o["module"])
                     r = getattr(mod, o.get("func", "run"))(o, tier, seed, log_path)
+                    r.setdefault("cmd", f"python3 smt/{o['module']}.py:{o.get('func', 'run')} (cvc5 / z3 on SMT-LIB generated from the MIR dump)")
                 except Inconclusive as e:
                     r = dict(verdict="inconclusive", detail=str(e))
                 r.setdefault("engine", "smt")
+                if r.get("verdict") == "fail" and hasattr(mod, "replay"):
+                    kh = match_known(o["id"], r.get("failed_checks") or [], known)
+                    if kh is None:
+                        try:
+                            r["replay"] = mod.replay(r, log_path)
+                        except Exception as e:  # noqa
+                            r["replay"] = {"reproduced": None, "note": "replay crashed: " + str(e)[:300], "path": None}
                 results[o["id"]] = r
 
         # ---- Kani obligations: one scratch copy per (cap, hcap), one invocation per group ----
@@ -139,7 +148,7 @@ def run_property(pid, tier, seed, only=None, use_cache=True, keep=False, write_e
                 unwindset = json.loads(uws)
                 try:
                     if unwindset:
-                        unwindset = resolve_unwindset(repo_dir, og, unwindset, log_path)
+                        unwindset = resolve_unwindset(repo_dir, og, unwindset, log_path, stubbing)
                     res, meta = kani.run_group(repo_dir, [o["harness"] for o in og], unwind, unwindset, stubbing,
                                                timeout_s=timeout, jobs=jobs, log_path=log_path)
                 except Inconclusive as e:
@@ -241,13 +250,13 @@ def run_property(pid, tier, seed, only=None, use_cache=True, keep=False, write_e
 
 
 # -----------------------------------------------------------------------------------------------
-def resolve_unwindset(repo_dir, og, unwindset, log_path):
+def resolve_unwindset(repo_dir, og, unwindset, log_path, stubbing=False):
     """unwindset keys are 'path/to/file.rs:<function substring>[#k]' ; values = bound. They are
     resolved to CBMC loop ids by looking at the loops of the compiled harnesses (never hard-coded).
     Resolution needs the goto binaries, i.e. a build: done with --only-codegen then goto-instrument
     --show-loops on each harness' goto binary."""
     import unwind
-    return unwind.resolve(repo_dir, [o["harness"] for o in og], unwindset, log_path)
+    return unwind.resolve(repo_dir, [o["harness"] for o in og], unwindset, log_path, stubbing)
 
 
 def write_text_replay(pid, o, r):
